@@ -77,6 +77,10 @@ fn main() {
         // memcase <cases.ndjson> [from]: loaders and MemCase lifecycle, one observation per line
         Some("memcase") => {
             let _ = engines::memcase::LIVE_FN.set(harness::alloc::live);
+            let _ = engines::memcase::MARK_FN.set(harness::alloc::mark);
+            // fresh heap memory is never zero by luck; with VERIF_MARKS the run is meant to be straced
+            harness::alloc::POISON.store(true, std::sync::atomic::Ordering::SeqCst);
+            if std::env::var_os("VERIF_MARKS").is_some() { harness::alloc::MARKS.store(true, std::sync::atomic::Ordering::SeqCst); }
             let dir = std::env::temp_dir().join(format!("verif_memcase_{}", std::process::id()));
             std::fs::create_dir_all(&dir).unwrap();
             let f = std::io::BufReader::new(std::fs::File::open(&args[2]).unwrap());
